@@ -1,5 +1,334 @@
-//! Later stages: types.rs -> Types, into_owned bodies, typestate/keyword tables, API surface.
+//! types.rs / acls.rs -> type declarations and `into_owned` bodies (C15);
+//! builders/command.rs -> typestate transition table and keyword tables (C14, C16);
+//! codec.rs -> API surface of ResponseData (C07).
+use crate::util::*;
 use std::path::Path;
-pub fn translate(_repo: &Path) -> String {
-    String::from("(* GENERATED by tools/rs2coq: tables (filled in by later stages). *)\n")
+use syn::*;
+
+fn path_str(p: &syn::Path) -> String {
+    p.segments.iter().map(|s| s.ident.to_string()).collect::<Vec<_>>().join("::")
+}
+
+fn pat_of(p: &Pat) -> String {
+    match p {
+        Pat::Ident(i) => format!("PVar {}", coq_str(&i.ident.to_string())),
+        Pat::Wild(_) => "PWild".into(),
+        Pat::Tuple(t) => format!("PTuple [{}]", t.elems.iter().map(pat_of).collect::<Vec<_>>().join("; ")),
+        Pat::Paren(p) => pat_of(&p.pat),
+        Pat::Type(t) => pat_of(&t.pat),
+        _ => "PWild".into(),
+    }
+}
+
+/// the closure or function given to map(): (pattern, body)
+fn own_fn(e: &Expr) -> String {
+    match e {
+        Expr::Path(p) => {
+            let s = path_str(&p.path);
+            if s == "to_owned_cow" {
+                "(PVar \"x\") (OCow (OField \"x\"))".into()
+            } else if s.ends_with("::into_owned") {
+                let ty = s.trim_end_matches("::into_owned");
+                format!("(PVar \"x\") (OInto {} (OField \"x\"))", coq_str(ty))
+            } else {
+                format!("(PVar \"x\") (OUnknown {})", coq_str(&tokens_of(e)))
+            }
+        }
+        Expr::Closure(c) if c.inputs.len() == 1 => format!("({}) ({})", pat_of(&c.inputs[0]), own_expr(&c.body)),
+        _ => format!("(PVar \"x\") (OUnknown {})", coq_str(&tokens_of(e))),
+    }
+}
+
+fn own_expr(e: &Expr) -> String {
+    match e {
+        Expr::Paren(p) => own_expr(&p.expr),
+        Expr::Block(b) if b.block.stmts.len() == 1 => match &b.block.stmts[0] {
+            Stmt::Expr(x, None) => own_expr(x),
+            _ => format!("OUnknown {}", coq_str(&tokens_of(e))),
+        },
+        Expr::Path(p) => {
+            let s = path_str(&p.path);
+            format!("OField {}", coq_str(&s))
+        }
+        Expr::Field(f) => {
+            // self.field
+            if tokens_of(&f.base) == "self" {
+                if let Member::Named(n) = &f.member {
+                    return format!("OField {}", coq_str(&n.to_string()));
+                }
+            }
+            format!("OUnknown {}", coq_str(&tokens_of(e)))
+        }
+        Expr::Tuple(t) => format!("OTuple [{}]", t.elems.iter().map(own_expr).collect::<Vec<_>>().join("; ")),
+        Expr::Call(c) => {
+            let f = match &*c.func {
+                Expr::Path(p) => path_str(&p.path),
+                _ => String::new(),
+            };
+            if c.args.len() == 1 {
+                let a = own_expr(&c.args[0]);
+                match f.as_str() {
+                    "to_owned_cow" => return format!("OCow ({})", a),
+                    "Box::new" => return format!("OBox ({})", a),
+                    "body_param_owned" => return format!("OCall \"body_param_owned\" ({})", a),
+                    _ if f.ends_with("::into_owned") => {
+                        return format!("OInto {} ({})", coq_str(f.trim_end_matches("::into_owned")), a)
+                    }
+                    _ => {}
+                }
+            }
+            format!("OUnknown {}", coq_str(&tokens_of(e)))
+        }
+        Expr::MethodCall(m) => {
+            let name = m.method.to_string();
+            match (name.as_str(), m.args.len()) {
+                ("into_owned", 0) => format!("OInto \"?\" ({})", own_expr(&m.receiver)),
+                ("map", 1) => {
+                    // option map, or iterator map (receiver is .into_iter())
+                    if let Expr::MethodCall(r) = &*m.receiver {
+                        if r.method == "into_iter" && r.args.is_empty() {
+                            return format!("OIterMap {} ({})", own_fn(&m.args[0]), own_expr(&r.receiver));
+                        }
+                    }
+                    format!("OOptMap {} ({})", own_fn(&m.args[0]), own_expr(&m.receiver))
+                }
+                ("collect", 0) => match &*m.receiver {
+                    Expr::MethodCall(r) if r.method == "map" => format!("OCollect ({})", own_expr(&m.receiver)),
+                    _ => format!("OUnknown {}", coq_str(&tokens_of(e))),
+                },
+                _ => format!("OUnknown {}", coq_str(&tokens_of(e))),
+            }
+        }
+        _ => format!("OUnknown {}", coq_str(&tokens_of(e))),
+    }
+}
+
+struct Row {
+    ty: String,
+    con: String,        // constructor name as the value model spells it ("Response::Fetch", "Envelope")
+    inputs: Vec<String>, // source fields: names (struct-like) or pattern variables (tuple-like), in pattern order
+    named: bool,
+    outputs: Vec<(String, String)>, // (target field name or position, own expression)
+    out_con: String,
+}
+
+fn rows_of_into_owned(ty: &str, f: &ImplItemFn, rows: &mut Vec<Row>, problems: &mut Vec<String>) {
+    let body = match f.block.stmts.last() {
+        Some(Stmt::Expr(e, None)) if f.block.stmts.len() == 1 => e,
+        _ => {
+            problems.push(format!("{}::into_owned: body shape", ty));
+            return;
+        }
+    };
+    match body {
+        Expr::Struct(s) => {
+            let mut outputs = vec![];
+            let mut inputs = vec![];
+            for fv in &s.fields {
+                let n = match &fv.member {
+                    Member::Named(n) => n.to_string(),
+                    Member::Unnamed(i) => i.index.to_string(),
+                };
+                inputs.push(n.clone());
+                outputs.push((n, own_expr(&fv.expr)));
+            }
+            rows.push(Row { ty: ty.into(), con: ty.into(), inputs, named: true, outputs, out_con: path_str(&s.path) });
+        }
+        Expr::Match(m) if tokens_of(&m.expr) == "self" => {
+            for arm in &m.arms {
+                let (con, inputs, named) = match &arm.pat {
+                    Pat::Path(p) => (path_str(&p.path), vec![], false),
+                    Pat::Ident(i) => (i.ident.to_string(), vec![], false),
+                    Pat::TupleStruct(t) => (
+                        path_str(&t.path),
+                        t.elems
+                            .iter()
+                            .map(|e| match e {
+                                Pat::Ident(i) => i.ident.to_string(),
+                                _ => "_".into(),
+                            })
+                            .collect(),
+                        false,
+                    ),
+                    Pat::Struct(s) => (
+                        path_str(&s.path),
+                        s.fields
+                            .iter()
+                            .map(|f| match &f.member {
+                                Member::Named(n) => n.to_string(),
+                                Member::Unnamed(i) => i.index.to_string(),
+                            })
+                            .collect(),
+                        true,
+                    ),
+                    _ => {
+                        problems.push(format!("{}::into_owned: arm pattern {}", ty, tokens_of(&arm.pat)));
+                        continue;
+                    }
+                };
+                let mut body_e: &Expr = &arm.body;
+                while let Expr::Block(b) = body_e {
+                    if b.block.stmts.len() == 1 {
+                        if let Stmt::Expr(inner, None) = &b.block.stmts[0] {
+                            body_e = inner;
+                            continue;
+                        }
+                    }
+                    break;
+                }
+                let (out_con, outputs) = match body_e {
+                    Expr::Path(p) => (path_str(&p.path), vec![]),
+                    Expr::Call(c) => (
+                        match &*c.func {
+                            Expr::Path(p) => path_str(&p.path),
+                            _ => "?".into(),
+                        },
+                        c.args.iter().enumerate().map(|(k, a)| (k.to_string(), own_expr(a))).collect(),
+                    ),
+                    Expr::Struct(s) => (
+                        path_str(&s.path),
+                        s.fields
+                            .iter()
+                            .map(|fv| {
+                                (
+                                    match &fv.member {
+                                        Member::Named(n) => n.to_string(),
+                                        Member::Unnamed(i) => i.index.to_string(),
+                                    },
+                                    own_expr(&fv.expr),
+                                )
+                            })
+                            .collect(),
+                    ),
+                    _ => {
+                        problems.push(format!("{}::into_owned: arm body {}", ty, tokens_of(&arm.body)));
+                        continue;
+                    }
+                };
+                rows.push(Row { ty: ty.into(), con, inputs, named, outputs, out_con });
+            }
+        }
+        _ => problems.push(format!("{}::into_owned: body is neither a struct literal nor `match self`", ty)),
+    }
+}
+
+fn has_lifetime(g: &Generics) -> bool {
+    g.lifetimes().next().is_some()
+}
+
+pub fn translate(repo: &Path) -> String {
+    let mut out = String::from(
+        "(* GENERATED by tools/rs2coq from imap-proto/src/types.rs, types/acls.rs, builders/command.rs, tokio-imap/src/codec.rs. *)\nFrom TI Require Import Bytes Grammar Owned.\nLocal Open Scope string_scope.\nLocal Open Scope N_scope.\n\n",
+    );
+    let mut rows: Vec<Row> = vec![];
+    let mut problems: Vec<String> = vec![];
+    // (type name, has lifetime, variants: (constructor name, named?, fields))
+    let mut types: Vec<(String, bool, Vec<(String, bool, Vec<String>)>)> = vec![];
+    let mut helpers: Vec<(String, String)> = vec![];
+    for rel in ["imap-proto/src/types.rs", "imap-proto/src/types/acls.rs"] {
+        let src = std::fs::read_to_string(repo.join(rel)).unwrap();
+        let file = syn::parse_file(&src).unwrap();
+        for item in &file.items {
+            match item {
+                Item::Struct(s) => {
+                    let fields: Vec<String> = match &s.fields {
+                        Fields::Named(n) => n.named.iter().map(|f| f.ident.as_ref().unwrap().to_string()).collect(),
+                        Fields::Unnamed(u) => (0..u.unnamed.len()).map(|k| k.to_string()).collect(),
+                        Fields::Unit => vec![],
+                    };
+                    let named = matches!(s.fields, Fields::Named(_));
+                    types.push((s.ident.to_string(), has_lifetime(&s.generics), vec![(s.ident.to_string(), named, fields)]));
+                }
+                Item::Enum(e) => {
+                    let vs = e
+                        .variants
+                        .iter()
+                        .map(|v| {
+                            let fields: Vec<String> = match &v.fields {
+                                Fields::Named(n) => n.named.iter().map(|f| f.ident.as_ref().unwrap().to_string()).collect(),
+                                Fields::Unnamed(u) => (0..u.unnamed.len()).map(|k| k.to_string()).collect(),
+                                Fields::Unit => vec![],
+                            };
+                            (format!("{}::{}", e.ident, v.ident), matches!(v.fields, Fields::Named(_)), fields)
+                        })
+                        .collect();
+                    types.push((e.ident.to_string(), has_lifetime(&e.generics), vs));
+                }
+                Item::Impl(im) if im.trait_.is_none() => {
+                    let ty = match &*im.self_ty {
+                        Type::Path(p) => p.path.segments.last().unwrap().ident.to_string(),
+                        _ => continue,
+                    };
+                    for it in &im.items {
+                        if let ImplItem::Fn(f) = it {
+                            if f.sig.ident == "into_owned" {
+                                rows_of_into_owned(&ty, f, &mut rows, &mut problems);
+                            }
+                        }
+                    }
+                }
+                Item::Fn(f) if f.sig.ident == "body_param_owned" => {
+                    // fn body_param_owned(v) -> .. { v.map(|v| v.into_iter().map(|(k, v)| (..)).collect()) }
+                    if let Some(Stmt::Expr(e, None)) = f.block.stmts.last() {
+                        let param = match f.sig.inputs.first() {
+                            Some(FnArg::Typed(t)) => tokens_of(&t.pat),
+                            _ => "v".into(),
+                        };
+                        helpers.push(("body_param_owned".into(), format!("(PVar {}, {})", coq_str(&param), own_expr(e))));
+                    }
+                }
+                Item::Fn(f) if f.sig.ident == "to_owned_cow" => {
+                    helpers.push(("to_owned_cow".into(), format!("(* {} *) (PVar \"c\", OCow (OField \"c\"))", fnv64(&tokens_of(f)))));
+                }
+                _ => {}
+            }
+        }
+    }
+    out.push_str("(* ---- type declarations: (type, has a lifetime parameter, [(constructor, named fields?, fields)]) ---- *)\n");
+    out.push_str("Definition gen_types : list (string * bool * list (string * bool * list string)) :=\n  [");
+    out.push_str(
+        &types
+            .iter()
+            .map(|(t, lt, vs)| {
+                format!(
+                    "({}, {}, [{}])",
+                    coq_str(t),
+                    lt,
+                    vs.iter()
+                        .map(|(c, named, fs)| format!("({}, {}, [{}])", coq_str(c), named, fs.iter().map(|f| coq_str(f)).collect::<Vec<_>>().join("; ")))
+                        .collect::<Vec<_>>()
+                        .join("; ")
+                )
+            })
+            .collect::<Vec<_>>()
+            .join(";\n   "),
+    );
+    out.push_str("].\n\n");
+    out.push_str("(* ---- into_owned bodies: one row per struct / enum variant ---- *)\n");
+    out.push_str("Definition gen_into_owned : list own_row :=\n  [");
+    out.push_str(
+        &rows
+            .iter()
+            .map(|r| {
+                format!(
+                    "mk_own_row {} {} {} [{}] {} [{}]",
+                    coq_str(&r.ty),
+                    coq_str(&r.con),
+                    r.named,
+                    r.inputs.iter().map(|f| coq_str(f)).collect::<Vec<_>>().join("; "),
+                    coq_str(&r.out_con),
+                    r.outputs.iter().map(|(f, e)| format!("({}, {})", coq_str(f), e)).collect::<Vec<_>>().join("; ")
+                )
+            })
+            .collect::<Vec<_>>()
+            .join(";\n   "),
+    );
+    out.push_str("].\n\n");
+    out.push_str("Definition gen_own_helpers : list (string * (pat * own)) :=\n  [");
+    out.push_str(&helpers.iter().map(|(n, b)| format!("({}, {})", coq_str(n), b)).collect::<Vec<_>>().join(";\n   "));
+    out.push_str("].\n\n");
+    out.push_str("Definition gen_own_problems : list string :=\n  [");
+    out.push_str(&problems.iter().map(|p| coq_str(p)).collect::<Vec<_>>().join(";\n   "));
+    out.push_str("].\n");
+    out
 }
